@@ -4,6 +4,7 @@
 package c12
 
 import (
+	"bytes"
 	"context"
 	"encoding/binary"
 	"fmt"
@@ -231,6 +232,37 @@ func generate(thorough bool, emit func(kase)) {
 		}
 		emit(kase{Family: "rdata-rdlen:" + r.name, Desc: "+1", Msg: mk(r.rd, len(r.rd)+1)})
 		emit(kase{Family: "rdata-rdlen:" + r.name, Desc: "65535", Msg: mk(r.rd, 65535)})
+	}
+	// (ii-b) SVCB/HTTPS parameters: every key 0..9 and 65535 with every value length 0..5 (and 2 values of its bytes)
+	for _, typ := range []uint16{64, 65} {
+		for _, key := range []int{0, 1, 2, 3, 4, 5, 6, 7, 8, 9, 65535} {
+			for vl := 0; vl <= 5; vl++ {
+				for _, fill := range []byte{0x00, 0x01, 0xff} {
+					rd := []byte{0, 1, 0, byte(key >> 8), byte(key), 0, byte(vl)}
+					rd = append(rd, bytes.Repeat([]byte{fill}, vl)...)
+					m := append(hdr(1, 1, 0, 0), qA...)
+					m = append(m, 0xc0, 12)
+					m = append(m, rrFixed(typ, 60, len(rd))...)
+					emit(kase{Family: fmt.Sprintf("svcparam-shape:%d", typ), Desc: fmt.Sprintf("key%d len%d fill%02x", key, vl, fill), Msg: append(m, rd...)})
+				}
+			}
+		}
+	}
+	// (ii-c) a record of EVERY type code 0..300 (and a few high ones) owned by the queried name, whose RDATA is a domain name,
+	// four bytes, or empty: decoded, then consumed by the resolver for that name
+	var allTypes []int
+	for t := 0; t <= 300; t++ {
+		allTypes = append(allTypes, t)
+	}
+	for _, t := range append(allTypes, 32768, 32769, 65280, 65535) {
+		for ri, rd := range [][]byte{{1, 'b', 0}, {192, 0, 2, 1}, {}, {0xc0, 12}} {
+			m := append(hdr(1, 1, 0, 0), qA...)
+			m = append(m, 0xc0, 12)
+			m = append(m, rrFixed(uint16(t), 60, len(rd))...)
+			m = append(m, rd...)
+			// ... followed by an address record for the name the RDATA spells, so that a consumer that follows it finds something
+			emit(kase{Family: "every-type", Desc: fmt.Sprintf("type%d rdata%d", t, ri), Msg: m})
+		}
 	}
 	// (v) DoH response bodies: content-length missing / lying / over the cap, with bodies up to 8 MiB (see runCase)
 	for _, v := range []string{"no-length-1MiB", "no-length-8MiB", "length-65536", "length-70000", "length-negative", "length-garbage", "length-10-body-5", "length-5-body-1MiB", "length-65535-full"} {
@@ -511,7 +543,7 @@ func Worker(tier string, shard, n int) {
 }
 
 func Run(r *ev.Run) {
-	r.Rule("grammar-bounded exhaustive enumeration (E1) in 16 single-threaded worker processes under ulimit -v 3 GiB with a 15 s per-case watchdog: (i) every string of <=4 (thorough 5; question position one more) name tokens out of {label 'a', 63-byte label, end, pointer to self / forward / header offset 0 / header offset 11 / question name / middle of the question label / past the end / first earlier token / previous token, 0x40 and 0x80 prefixes, half a pointer} in every name position: question, owner, and inside the RDATA of NS, CNAME, PTR, MX, SOA, SRV, SVCB, HTTPS, NSEC, RRSIG with rdlength true/-1/+1; (ii) for 18 RDATA layouts every truncation (honest and lying rdlength), every byte +-1/+128, rdlength +1/65535; (iii) header counts {0,1,2,65535}x{0,1,2,65535}x{0,1,65535}^2 x 0..3 records present, short headers; (iv) scaling families at n in {64..16384 (thorough 65535)}: pointer chains, n/2 labels, label chain x n/16 records, pointer loops, n/4 parameters. Oracles: returns (watchdog), TotalAlloc delta <= 256KiB+512n+n^2/2, Go type of Data matches Type, and the decoded message served as DoH body to Resolver.Resolve (+Targets) for every name it mentions does not panic. distinct = distinct message byte strings")
+	r.Rule("grammar-bounded exhaustive enumeration (E1) in 16 single-threaded worker processes under ulimit -v 3 GiB with a 15 s per-case watchdog: (0) SVCB/HTTPS parameters with every key 0..9/65535 x value length 0..5 x 3 fill bytes, and one record of EVERY type code 0..300 (+4 high codes) with 4 RDATA shapes owned by the queried name (decoded, then consumed by Resolve); (i) every string of <=4 (thorough 5; question position one more) name tokens out of {label 'a', 63-byte label, end, pointer to self / forward / header offset 0 / header offset 11 / question name / middle of the question label / past the end / first earlier token / previous token, 0x40 and 0x80 prefixes, half a pointer} in every name position: question, owner, and inside the RDATA of NS, CNAME, PTR, MX, SOA, SRV, SVCB, HTTPS, NSEC, RRSIG with rdlength true/-1/+1; (ii) for 18 RDATA layouts every truncation (honest and lying rdlength), every byte +-1/+128, rdlength +1/65535; (iii) header counts {0,1,2,65535}x{0,1,2,65535}x{0,1,65535}^2 x 0..3 records present, short headers; (iv) scaling families at n in {64..16384 (thorough 65535)}: pointer chains, n/2 labels, label chain x n/16 records, pointer loops, n/4 parameters. Oracles: returns (watchdog), TotalAlloc delta <= 256KiB+512n+n^2/2, Go type of Data matches Type, and the decoded message served as DoH body to Resolver.Resolve (+Targets) for every name it mentions does not panic. distinct = distinct message byte strings")
 	r.Assume("arbitrary byte noise outside the token grammar is not explored", "allocation measured as runtime TotalAlloc delta with GOMAXPROCS=1 in the worker")
 	generate(r.Thorough(), func(k kase) { r.Eval(k.Family+"|"+string(k.Msg), "") })
 	done, total := workers.Spawn(r, "C12", 3*1024*1024)
